@@ -752,7 +752,10 @@ class Lower(object):
             elif n in ('ComprehensionAppendNode',):
                 return gens, self.expr(cur.expr), None
             elif n == 'DictComprehensionAppendNode':
-                return gens, self.expr(cur.key_expr), self.expr(cur.value_expr)
+                if hasattr(cur, 'key_expr'):
+                    return gens, self.expr(cur.key_expr), self.expr(cur.value_expr)
+                item = cur.dict_item                  # newer Cython: one DictItemNode child
+                return gens, self.expr(item.key), self.expr(item.value)
             else:
                 raise FrontEndError('%s: comprehension shape %s' % (self.rel, n))
 
